@@ -51,15 +51,27 @@ let () =
           (sn st.c4ps_skipped) (sn st.c4ps_calls) (int_of_nat st.c4ps_maxlevel)
     | _ -> "?args");
   (let nn_graph ns = nodes ns (function
-     | [id; items; hasitems; pick; kids] ->
+     | [id; items; hasitems; pick; klo; khi; kids] ->
        (ni id, { c4n_items = ni items; c4n_hasitems = b01 hasitems; c4n_kids = nl kids;
-                 c4n_pick = (if pick = "-1" then None else Some (nat_of_int (int_of_string pick))) })
+                 c4n_pick = (if pick = "-1" then None else Some (nat_of_int (int_of_string pick)));
+                 c4n_klo = ni klo; c4n_khi = ni khi })
      | _ -> failwith "nnode") in
    register "c4nniter" (fun a -> match a with
      | [cap; root; ns] ->
        let g = nn_graph ns in
        let (st, fin) = c4_nn_iter (nat_of_int (int_of_string cap)) g (ni root) in
        Printf.sprintf "entries=%s leaves=%s warns=%s done=%s" (sn st.c4i_entries) (sn st.c4i_leaves) (sn st.c4i_warns) (sb fin)
+     | _ -> "?args");
+   register "c4nnopen" (fun a -> match a with
+     | [cap; root; ns] ->
+       let g = nn_graph ns in
+       let we e = (match e with C4wDone -> "done" | C4wStopped -> "stopped" | C4wFuel -> "FUEL") in
+       let ((v, ve), r) = c4_nn_open (nat_of_int (int_of_string cap)) g (ni root) in
+       Printf.sprintf "valid=%s vleaves=%s vwarns=%s vend=%s" (sb (not v.c4v_err)) (sn v.c4v_leaves) (sn v.c4v_warns) (we ve) ^
+       (match r with
+        | None -> " repaired=0"
+        | Some (st, e) -> Printf.sprintf " repaired=1 rleaves=%s reent=%s distinct=%s rwarns=%s gaveup=%s rend=%s" (sn st.c4rp_leaves)
+                            (sn st.c4rp_reent) (sn st.c4rp_distinct) (sn st.c4rp_warns) (sb st.c4rp_gaveup) (we e))
      | _ -> "?args");
    register "c4nnfind" (fun a -> match a with
      | [root; ns] ->
